@@ -24,7 +24,7 @@ EXHAUSTIVE_SUBDOMAINS = ["every NL band 1..59 x hemisphere x parity x {airborne,
 ASSUMPTIONS = ["reference latitude clamped to [-90,90], reference longitude wrapped to [-180,180)",
                "box shrunk by two quantisation steps so that float round-off cannot move a reference outside it"]
 REQUIRED = ["airborne", "surface", "parity0", "parity1", "ni_le_0", "ni_gt_0", "ref_across_equator", "ref_across_antimeridian",
-            "ref_across_greenwich", "corner", "routing_checked", "ref_lat_exactly_zero", "ref_lon_exactly_zero", "ref_lon_not_folded", "ref_lon_0_360_convention", "ref_a_hair_inside_box_edge"] + \
+            "ref_across_greenwich", "corner", "routing_checked", "ref_lat_exactly_zero", "ref_lon_exactly_zero", "ref_lon_not_folded", "ref_lon_0_360_convention", "ref_a_hair_inside_box_edge", "reference_is_previous_fix"] + \
            ["band%d_%s" % (nl, s) for nl in range(1, 60) for s in ("air", "sfc")]
 
 
@@ -119,6 +119,16 @@ def m_ref(ctx, case):
         ctx.note_max("max_lat_err_steps", elat / slat)
         ctx.note_max("max_lon_err_steps", elon / slon)
         results.append((la, lo))
+    if results:
+        # a tracker feeds the fix it just got back as the reference for the next decode of the same message: 0 NM away
+        la0, lo0 = results[0]
+        rr = [call(f, msg, la0, lo0) for f in (adsb.position_with_ref, adsb.surface_position_with_ref if sfc else adsb.airborne_position_with_ref)]
+        ctx.ev(2)
+        ctx.hit("reference_is_previous_fix")
+        for r_ in rr:
+            if r_[0] != "ok" or r_[1] is None or abs(r_[1][0] - la0) > 1e-9 or cpr.lon_diff(r_[1][1], lo0) > 1e-9:
+                ctx.violation(key_w or "decode-with-previous-fix-as-reference-differs", msg=msg, first=[la0, lo0], again=r_[1:])
+                break
     if len(results) == 2:
         (a0, o0), (a1, o1) = results
         if a0 != a1 or cpr.lon_diff(o0, o1) > 1e-9:
